@@ -117,6 +117,17 @@ impl NamespaceStates {
         state.finish(origin, result)
     }
 
+    /// Our sync request was declined by the remote because it considers a sync with us to be
+    /// running already.
+    ///
+    /// Frees the slot if it is still held by that request. If a request from the remote was
+    /// accepted in the meantime, the slot belongs to that session and is left alone.
+    pub fn abort_connect(&mut self, namespace: &NamespaceId, node: EndpointId) {
+        if let Some(state) = self.entry(namespace, node) {
+            state.abort_connect();
+        }
+    }
+
     /// Set whether a [`super::live::Event::PendingContentReady`] may be emitted once the pending queue
     /// becomes empty.
     ///
@@ -191,6 +202,17 @@ impl PeerState {
         self.last_sync = Some((Instant::now(), result));
         self.state = SyncState::Idle;
         start.map(|s| (s, self.resync_requested))
+    }
+
+    fn abort_connect(&mut self) {
+        if let SyncState::Running {
+            origin: Origin::Connect(_),
+            ..
+        } = &self.state
+        {
+            debug!("connect was declined by the remote: back to idle");
+            self.state = SyncState::Idle;
+        }
     }
 
     fn start_connect(&mut self, reason: SyncReason) -> bool {
